@@ -47,6 +47,11 @@ def leaf_node(codec, stored, metric):
                                                           1: Agg("Cow", BV(1, 64), {0: vec_value(codec, stored)})})})
 
 
+def tree_node(tag):
+    """a bucket node of the forest (payload opaque)"""
+    return Agg("Node", BV(1, 64), {0: Agg("Descendants", None, {0: Opaque("bitmap", {"id": tag})})})
+
+
 def key_agg(k):
     idx, mode, ident = k
     return Agg("Key", None, {0: BV(idx, 16), 1: W.node_id(mode, BV(ident, 32)), 2: BV(0, 8)})
@@ -274,15 +279,15 @@ def database(dim, src_codec, with_items=True):
         (IDX, META, 0): Opaque("metadata", {"of": IDX}),
         (IDX, META, 1): Opaque("version", {"of": IDX}),
         (IDX, UPD, 5): Opaque("mark"),
-        (IDX, TREE, 0): Opaque("tree", {"id": 0}),
-        (IDX, TREE, 4): Opaque("tree", {"id": 4}),
+        (IDX, TREE, 0): tree_node(0),
+        (IDX, TREE, 4): tree_node(4),
         (IDX, ITEM, 1): leaf_node(src_codec, stored, "D"),
         (IDX, ITEM, 0xFFFFFFFF): leaf_node(src_codec, stored, "D"),
         (IDX - 1, META, 0): Opaque("metadata", {"of": IDX - 1}),
-        (IDX - 1, TREE, 0): Opaque("tree", {"id": "n0"}),
-        (IDX - 1, ITEM, 1): Opaque("leaf", {"id": "n1"}),
-        (IDX + 1, TREE, 0): Opaque("tree", {"id": "n2"}),
-        (IDX + 1, ITEM, 3): Opaque("leaf", {"id": "n3"}),
+        (IDX - 1, TREE, 0): tree_node("n0"),
+        (IDX - 1, ITEM, 1): leaf_node(src_codec, stored, "D"),
+        (IDX + 1, TREE, 0): tree_node("n2"),
+        (IDX + 1, ITEM, 3): leaf_node(src_codec, stored, "D"),
     }
     if not with_items:
         kv = {k: v for k, v in kv.items() if not (k[0] == IDX and k[1] == ITEM)}
